@@ -36,6 +36,8 @@ def fresh_tree(text: str) -> Obj:
 
 
 def mutable_ids(v: Any, acc: Set[int]) -> Set[int]:
+    if isinstance(v, Obj) and v.cls == "lark.Token":
+        acc.add(id(v))  # lark Tokens have assignable attributes (type, value): a shared Token is shared mutable state
     if isinstance(v, Obj) and v.cls == "lark.Tree":
         acc.add(id(v))
         ch = v.fields.get("children")
@@ -59,7 +61,10 @@ def shape(v: Any) -> Any:
 
 
 def vandalise(v: Any) -> None:
-    """In-place edits at every depth: append, replace, remove children."""
+    """In-place edits at every depth: append, replace, remove children, re-label tokens."""
+    if isinstance(v, Obj) and v.cls == "lark.Token":
+        v.fields["value"] = "edited"
+        v.fields["type"] = "EDITED"
     if isinstance(v, Obj) and v.cls == "lark.Tree":
         ch = v.fields.get("children")
         if isinstance(ch, list):
@@ -202,13 +207,22 @@ def check(ctx: Ctx) -> None:
         for kind, node, desc in hidden_state_sites(model, fn):
             if kind != "memo":
                 ctx.ob("C11.pure", f"{fname}::{kind}", False, f"{fname} {desc}", file=file, line=node.lineno, function=fn.qualname)
-    check_path(ctx, "C11.state", ["ahbicht.utility_functions.tree_copy", *[f"{m}.{f}" for m, f, _ in PARSERS]],
+    check_path(ctx, "C11.state", ["ahbicht.utility_functions.tree_copy", *[f"{m}.{f}" for m, f, _ in PARSERS],
+                                  "ahbicht.expressions.expression_resolver.parse_expression_including_unresolved_subexpressions"],
                "a parse result must depend on the string alone")
     # memoisation nowhere else
     for fn in model.functions.values():
         for kind, node, desc in hidden_state_sites(model, fn):
             if kind == "memo":
                 ctx.ob("C11.only", fn.qualname, False, f"{fn.qualname}: {desc} - only the two parse functions may be memoised (behind tree_copy)", file=fn.file, line=node.lineno, function=fn.qualname)
+    for fn in model.functions.values():
+        if fn.module.name.endswith("_vstat_stub") or fn.qualname.startswith("ahbicht.utility_functions.tree_copy"):
+            continue
+        for n in ast.walk(fn.node):
+            if isinstance(n, ast.Attribute) and n.attr in ("__wrapped__", "cache_clear", "cache_parameters"):
+                ctx.ob("C11.only", f"{fn.qualname}::{n.attr}", False,
+                       f"{fn.qualname} reaches behind the copying wrapper via .{n.attr} ({norm(n, 80)}): the cached tree itself (or the cache) gets into callers' hands",
+                       file=fn.file, line=n.lineno, function=fn.qualname)
     ctx.ob("C11.only", "scan", True, "")
     ctx.assume("L4: Tree.copy() shares the children list, copy.deepcopy copies recursively; Tokens are immutable strings")
     ctx.assume("Lark.parse is stateless across calls (trusted)")
